@@ -46,6 +46,8 @@ REQUESTS = {
     "VBEModeInfo": ("multiboot2/src/vbe_info.rs", []),
     "FramebufferTag": ("multiboot2/src/framebuffer.rs", ["address", "pitch", "width", "height", "bpp"]),
     "ElfSectionsTag": ("multiboot2/src/elf_sections.rs", ["number_of_sections", "entry_size", "shndx"]),
+    "ElfSectionInner32": ("multiboot2/src/elf_sections.rs", []),
+    "ElfSectionInner64": ("multiboot2/src/elf_sections.rs", []),
     "EFISdt32Tag": ("multiboot2/src/efi.rs", ["sdt_address"]),
     "EFISdt64Tag": ("multiboot2/src/efi.rs", ["sdt_address"]),
     "EFIImageHandle32Tag": ("multiboot2/src/efi.rs", ["image_handle"]),
@@ -94,6 +96,8 @@ FIELD_REQUESTS = {
     "RsdpV2Tag": ["signature", "checksum", "oem_id", "revision", "rsdt_address", "length", "xsdt_address", "ext_checksum"],
     "MemoryArea": ["base_addr", "length", "typ"],
     "ModuleTag": ["mod_start", "mod_end"],
+    "ElfSectionInner32": ["name_index", "typ", "flags", "addr", "offset", "size", "link", "info", "addralign", "entry_size"],
+    "ElfSectionInner64": ["name_index", "typ", "flags", "addr", "offset", "size", "link", "info", "addralign", "entry_size"],
 }
 
 PRIM = {"u8": (1, 1), "i8": (1, 1), "u16": (2, 2), "i16": (2, 2), "u32": (4, 4), "i32": (4, 4), "u64": (8, 8), "i64": (8, 8),
